@@ -239,6 +239,9 @@ class ListConstant(_Constant):
     def __init__(self, values):
         # handle _Constants or make a _Constant
         self.value = [x if isinstance(x, _Constant) else make_constant(x) for x in values]
+        if any(isinstance(x, ListConstant) for x in self.value):
+            # (the pattern language has sets of plain constants only)
+            raise ValueError("a list constant cannot contain a list")
 
     def __str__(self):
         return "(" + ", ".join(["%s" % x for x in self.value]) + ")"
